@@ -13,9 +13,9 @@ Open Scope Z_scope.
 
 Definition define_fn := obj -> key -> desc -> bool -> obj * dres.
 (* otto's clamps / the ES5 clamps around one and the same [[DefineOwnProperty]] *)
-Definition with_otto_clamps (df : define_fn) : dialect := mkDia df otto_rel otto_cnt otto_indexof otto_lastindexof.
-Definition with_es5_clamps (df : define_fn) : dialect :=
-  mkDia df (dia_rel es5) (dia_cnt es5) (dia_indexof es5) (dia_lastindexof es5).
+Definition with_otto_clamps (df : define_fn) (rh : bool) : dialect := mkDia df otto_rel otto_cnt otto_indexof otto_lastindexof rh.
+Definition with_es5_clamps (df : define_fn) (rh : bool) : dialect :=
+  mkDia df (dia_rel es5) (dia_cnt es5) (dia_indexof es5) (dia_lastindexof es5) rh.
 
 Lemma bind_ext : forall A B (m : M A) (f g : A -> M B),
   (forall a s, f a s = g a s) -> forall s, bind m f s = bind m g s.
@@ -32,18 +32,14 @@ Proof.
   pose proof (Z.mod_pos_bound z two32 ltac:(unfold two32; lia)). unfold two32 in *. lia.
 Qed.
 
-Lemma m_get_bind_ext : forall B k (f g : val -> M B),
-  (forall v s', f v s' = g v s') -> forall s, bind (m_get k) f s = bind (m_get k) g s.
-Proof. intros; apply bind_ext; assumption. Qed.
-
-Lemma m_len_ext : forall B (f g : Z -> M B),
-  (forall len, 0 <= len < 2 ^ 53 -> forall s, f len s = g len s) -> forall s, bind m_len f s = bind m_len g s.
+Lemma m_len_ext : forall D B (f g : Z -> M B),
+  (forall len, 0 <= len < 2 ^ 53 -> forall s, f len s = g len s) -> forall s, bind (m_len D) f s = bind (m_len D) g s.
 Proof.
-  intros B f g H s.
-  pose (s1 := if s_lg s then mkS (s_o s) (s_log s ++ [[VNum 9]]) (s_cb s) true else s).
-  assert (E0 : m_len s = bind (m_get KLen) (fun v => opt_m (to_uint32 v)) s1) by reflexivity.
+  intros D B f g H s.
+  pose (s1 := if s_lg s then mkS (s_o s) (s_log s ++ [[VNum 9]]) (s_cb s) true (s_args s) else s).
+  assert (E0 : m_len D s = bind (m_get D KLen) (fun v => opt_m (to_uint32 v)) s1) by reflexivity.
   unfold bind at 1 2. rewrite E0. unfold bind.
-  destruct (m_get KLen s1) as [v s2 | c s2]; [ | reflexivity].
+  destruct (m_get D KLen s1) as [v s2 | c s2]; [ | reflexivity].
   destruct (to_uint32 v) as [n | ] eqn:E; unfold opt_m, ret, throw; [ | reflexivity].
   apply H. eapply to_uint32_range. exact E.
 Qed.
@@ -56,12 +52,13 @@ Qed.
 
 Section Clamps.
 Variable df : define_fn.
-Let D1 := with_otto_clamps df.
-Let D2 := with_es5_clamps df.
+Variable rh : bool.
+Let D1 := with_otto_clamps df rh.
+Let D2 := with_es5_clamps df rh.
 
 Theorem slice_clamps : forall args s, m_slice D1 args s = m_slice D2 args s.
 Proof.
-  intros args s. unfold m_slice. apply m_len_ext. intros len Hlen s1.
+  intros args s. unfold m_slice. change (m_len D2) with (m_len D1). apply m_len_ext. intros len Hlen s1.
   apply bind_ext. intros sv s2. cbn [dia_rel D1 D2 with_otto_clamps with_es5_clamps].
   rewrite (rel_agree sv len Hlen). apply bind_ext. intros k s3. apply bind_ext. intros ev s4.
   destruct ev; try reflexivity; rewrite (rel_agree _ len Hlen); reflexivity.
@@ -69,7 +66,7 @@ Qed.
 
 Theorem splice_clamps : forall args s, m_splice D1 args s = m_splice D2 args s.
 Proof.
-  intros args s. unfold m_splice. apply m_len_ext. intros len Hlen s1.
+  intros args s. unfold m_splice. change (m_len D2) with (m_len D1). apply m_len_ext. intros len Hlen s1.
   apply bind_ext. intros sv s2. cbn [dia_rel dia_cnt D1 D2 with_otto_clamps with_es5_clamps].
   rewrite (rel_agree sv len Hlen). apply opt_m_ext. intros start Hs s3.
   apply es5_rel_range in Hs; [ | lia].
@@ -83,7 +80,7 @@ Qed.
 
 Theorem indexof_clamps : forall args s, m_indexof D1 args s = m_indexof D2 args s.
 Proof.
-  intros args s. unfold m_indexof. apply m_len_ext. intros len Hlen s1.
+  intros args s. unfold m_indexof. change (m_len D2) with (m_len D1). apply m_len_ext. intros len Hlen s1.
   apply bind_ext. intros x s2. destruct (len =? 0); [reflexivity |].
   destruct (nth_arg args 1) as [a | ]; [ | reflexivity].
   cbn [dia_indexof D1 D2 with_otto_clamps with_es5_clamps].
@@ -95,7 +92,7 @@ Qed.
 
 Theorem lastindexof_clamps : forall args s, m_lastindexof D1 args s = m_lastindexof D2 args s.
 Proof.
-  intros args s. unfold m_lastindexof. apply m_len_ext. intros len Hlen s1.
+  intros args s. unfold m_lastindexof. change (m_len D2) with (m_len D1). apply m_len_ext. intros len Hlen s1.
   apply bind_ext. intros x s2.
   destruct (nth_arg args 1) as [a | ]; [ | reflexivity].
   cbn [dia_lastindexof D1 D2 with_otto_clamps with_es5_clamps].
@@ -107,11 +104,11 @@ Qed.
 
 (* the other sixteen methods do not use the clamps at all *)
 Theorem other_methods_clamps :
-  m_join = m_join /\ m_pop D1 = m_pop D2 /\ m_push D1 = m_push D2 /\ m_reverse D1 = m_reverse D2 /\
+  m_join D1 = m_join D2 /\ m_pop D1 = m_pop D2 /\ m_push D1 = m_push D2 /\ m_reverse D1 = m_reverse D2 /\
   m_shift D1 = m_shift D2 /\ m_unshift D1 = m_unshift D2 /\ m_every D1 = m_every D2 /\ m_some D1 = m_some D2 /\
   m_foreach D1 = m_foreach D2 /\ m_map D1 = m_map D2 /\ m_filter D1 = m_filter D2 /\
-  m_reduce D1 = m_reduce D2 /\ m_reduceright D1 = m_reduceright D2 /\ m_concat = m_concat /\
-  m_tostring = m_tostring /\ m_tolocalestring = m_tolocalestring.
+  m_reduce D1 = m_reduce D2 /\ m_reduceright D1 = m_reduceright D2 /\ m_concat D1 = m_concat D2 /\
+  m_tostring D1 = m_tostring D2 /\ m_tolocalestring D1 = m_tolocalestring D2.
 Proof. repeat split. Qed.
 
 (* every method of the table *)
